@@ -26,8 +26,10 @@ VARIABLES l,
           strays       \* diagnosis only: mappings given to mounts that failed (possibly left in some slot)
 tvars == <<l, segkind, after, ctl, left, strays>>
 
-F(ok, sig, d) == IF ok THEN <<>> ELSE <<[sig |-> sig, d |-> ToString(d), drift |-> FALSE]>>
-FD(ok, sig, d) == IF ok THEN <<>> ELSE <<[sig |-> sig, d |-> ToString(d), drift |-> TRUE]>>      \* model drift, not a failure
+\* a failed obligation: signature, the obligation it is about (`key` = the signature without its diagnosis), detail
+F(ok, sig, d) == IF ok THEN <<>> ELSE <<[sig |-> sig, key |-> sig, d |-> ToString(d), drift |-> FALSE]>>
+FK(ok, key, sig, d) == IF ok THEN <<>> ELSE <<[sig |-> sig, key |-> key, d |-> ToString(d), drift |-> FALSE]>>
+FD(ok, sig, d) == IF ok THEN <<>> ELSE <<[sig |-> sig, key |-> sig, d |-> ToString(d), drift |-> TRUE]>>      \* model drift, not a failure
 Dom(r) == DOMAIN r
 Has(r, f) == f \in DOMAIN r
 SameIno(a, b) == a.idx = b.idx /\ a.low = b.low
@@ -38,22 +40,27 @@ Strip(r) == [f \in DOMAIN r \ {"seg", "k", "pred"} |-> r[f]]
 
 (* ---------------- diagnosis of a wrong id (classification only) ---------------- *)
 MapSrc(idx) == IF IsMap(given[idx]) THEN "own-map" ELSE IF IsMap(gmap) THEN "global-map" ELSE "no-map"
+\* after a save/restore an id that should go through the global mapping and comes out unchanged is classed as such
+\* (a stray per-mount mapping that leaves the id alone would explain it too)
+LostGlobal(got, x, idx) == after /\ got = x /\ IsMap(gmap) /\ ~IsMap(given[idx])
 DiagIn(got, x, idx) ==
+  IF LostGlobal(got, x, idx) THEN "not-translated" ELSE
   IF ~IsMap(given[idx]) /\ \E m \in {left[idx]} \cup strays : IsMap(m) /\ In(m, x) # In(AEff(idx), x) /\ got = In(m, x) THEN "stale-slot-mapping"
   ELSE IF IsMap(given[idx]) /\ got = In(gmap, x) THEN "global-instead-of-mount-mapping"
   ELSE IF got = x THEN "not-translated"
   ELSE IF got = Out(AEff(idx), x) THEN "wrong-direction" ELSE "wrong-id"
 DiagOut(got, x, idx) ==
+  IF LostGlobal(got, x, idx) THEN "not-translated" ELSE
   IF ~IsMap(given[idx]) /\ \E m \in {left[idx]} \cup strays : IsMap(m) /\ Out(m, x) # Out(AEff(idx), x) /\ got = Out(m, x) THEN "stale-slot-mapping"
   ELSE IF got = Out(AEff(idx), Out(AEff(idx), x)) THEN "translated-twice"
   ELSE IF IsMap(given[idx]) /\ got = Out(gmap, x) THEN "global-instead-of-mount-mapping"
   ELSE IF got = x THEN "not-translated"
   ELSE IF got = In(AEff(idx), x) THEN "wrong-direction" ELSE "wrong-id"
 CkIn(sit, fact, got, x, idx) ==
-  F(got = In(AEff(idx), x), "C14|" \o sit \o "|" \o fact \o "|" \o DiagIn(got, x, idx) \o "|" \o MapSrc(idx),
+  FK(got = In(AEff(idx), x), "C14|" \o sit \o "|" \o fact, "C14|" \o sit \o "|" \o fact \o "|" \o DiagIn(got, x, idx) \o "|" \o MapSrc(idx),
     [got |-> got, sent |-> x, expected |-> In(AEff(idx), x), idx |-> idx])
 CkOut(sit, fact, got, x, idx) ==
-  F(got = Out(AEff(idx), x), "C14|" \o sit \o "|" \o fact \o "|" \o DiagOut(got, x, idx) \o "|" \o MapSrc(idx),
+  FK(got = Out(AEff(idx), x), "C14|" \o sit \o "|" \o fact, "C14|" \o sit \o "|" \o fact \o "|" \o DiagOut(got, x, idx) \o "|" \o MapSrc(idx),
     [got |-> got, backend |-> x, expected |-> Out(AEff(idx), x), idx |-> idx])
 
 (* ---------------- requests ---------------- *)
@@ -240,18 +247,28 @@ JudgeInit(ev) ==
 (* ---------------- plumbing ---------------- *)
 IsDrift(f) == f.drift
 PrintAll(fs0) == \E fs \in {fs0} : \A j \in 1..Len(fs) : PrintT(<<(IF IsDrift(fs[j]) THEN "DRIFTV" ELSE "VIOL"), fs[j].sig, l, fs[j].d>>)
-Sigs(fs) == {fs[j].sig : j \in 1..Len(fs)}
+Sigs(fs) == {fs[j].key : j \in 1..Len(fs)}
 Rewrap(s) == "C19|after-restore|" \o s
+\* what differs: only owner ids the property does not constrain (those of pseudo directories; the global
+\* mapping is applied to them by LOOKUP), or something else
+NoIds(e) == [f \in DOMAIN e \ {"uid", "gid"} |-> e[f]]
+RepNoIds(rep) == [f \in DOMAIN rep |-> IF f \in {"entry", "attr"} THEN NoIds(rep[f])
+                                       ELSE IF f = "entries" THEN [j \in 1..Len(rep[f]) |-> NoIds(rep[f][j])] ELSE rep[f]]
+DiffClass(a, b) ==
+  IF "rep" \in DOMAIN a /\ "rep" \in DOMAIN b /\ a.calls = b.calls /\ RepNoIds(a.rep) = RepNoIds(b.rep)
+  THEN "owner-ids-differ-from-unsaved-run|" \o (IF a.calls = <<>> THEN "pseudo" ELSE "backend") \o (IF IsMap(gmap) THEN "|global-map" ELSE "|no-global-map")
+  ELSE "differs-from-unsaved-run"
 \* what is reported for step k with observed outcome `out` and failed obligations fs
 Report(k, op, out, fs) ==
   IF segkind = "plain" THEN fs
   ELSE IF segkind = "control" THEN SelectSeq(fs, IsDrift)
   ELSE IF ~after THEN <<>>
   ELSE LET base == IF k \in DOMAIN ctl THEN ctl[k].sigs ELSE {}
-           new == SelectSeq(fs, LAMBDA f : ~IsDrift(f) /\ f.sig \notin base)
-       IN [j \in 1..Len(new) |-> [sig |-> Rewrap(new[j].sig), d |-> new[j].d, drift |-> FALSE]] \o
-          (IF new = <<>> /\ k \in DOMAIN ctl /\ ctl[k].out # out
-           THEN <<[sig |-> "C19|" \o op \o "|differs-from-unsaved-run", d |-> ToString(<<out, ctl[k].out>>), drift |-> FALSE]>> ELSE <<>>)
+           new == SelectSeq(fs, LAMBDA f : ~IsDrift(f) /\ f.key \notin base)       \* obligations the unsaved run satisfies
+       IN [j \in 1..Len(new) |-> [sig |-> Rewrap(new[j].sig), key |-> new[j].key, d |-> new[j].d, drift |-> FALSE]] \o
+          \* a different outcome although both runs satisfy every obligation at this step
+          (IF SelectSeq(fs, LAMBDA f : ~IsDrift(f)) = <<>> /\ k \in DOMAIN ctl /\ ctl[k].sigs = {} /\ ctl[k].out # out
+           THEN <<[sig |-> "C19|" \o op \o "|" \o DiffClass(out, ctl[k].out), key |-> "", d |-> ToString(<<out, ctl[k].out>>), drift |-> FALSE]>> ELSE <<>>)
 Remember(k, out, fs) == ctl' = IF segkind = "control" THEN (k :> [out |-> out, sigs |-> Sigs(fs)]) @@ ctl ELSE ctl
 
 RECURSIVE ReplyAt(_)
@@ -286,7 +303,7 @@ StepPrefill(r) ==
 
 StepMount(r) ==
   \E fs \in {JudgeMount(r)} : \E m \in {IF r.some THEN r.map ELSE NoMap} :
-  \E out \in {[ret |-> r.ret, idx |-> r.idx, calls |-> [j \in 1..Len(r.calls) |-> Strip(r.calls[j])]]} :
+  \E out \in {[ret |-> r.ret, idx |-> r.idx]} :       \* the backend calls of a mount are judged by JudgeMount
      /\ PrintAll(Report(r.k, "mount", out, fs))
      /\ Remember(r.k, out, fs)
      /\ IF r.ret = "ok" /\ r.idx \in 1..N-1
